@@ -44,6 +44,10 @@ def stimuli():
     out.append(("tick", 100))
     out.append(("appdisc_eof",))
     out.append(("second_connect",))
+    # an integrity failure whose Logout cannot be written: the transport fails at that very drain()
+    for cls in ("app", "hb"):
+        for d in ("bad49", "no34", "low"):
+            out.append(("in_fail", cls, d))
     return out
 
 
@@ -157,14 +161,23 @@ def apply(w, mon, stim, rootname, role):
     kind = stim[0]
     res = None
     fr = None
-    if kind == "in":
+    if kind in ("in", "in_fail"):
         if w.reader is None:
             return "skip"
         fr = make_frame(w, stim[1], stim[2])
         if fr is None:
             return "skip"
+        if kind == "in_fail":
+            if w.writer is None:
+                return "skip"
+            w.writer.fail(ConnectionResetError, lost=ConnectionResetError("reset by peer"))
         w.reader.feed(fr)
         w.run()
+        if kind == "in_fail":
+            # the read side reports the reset as well (next read)
+            if w.reader is not None and not w.reader.eof and w.reader.exc is None:
+                w.reader.set_exception(ConnectionResetError("reset by peer"))
+                w.run()
     elif kind == "send":
         k = stim[1]
         if k == "tr_api":
@@ -282,6 +295,16 @@ def apply(w, mon, stim, rootname, role):
             return V("app_disconnect_not_disconnected", "appdisc_eof", "the connection is disconnected")
         if a["ndisc"] - b["ndisc"] != 1:
             return V("disconnect_not_reported_once", "app_disconnect_then_eof", "reports the disconnect exactly once")
+        return None
+    if kind == "in_fail":
+        delivered = a["nmsg"] - b["nmsg"]
+        if not b["dead"] and mon["ever_connected"]:
+            if not a["dead"]:
+                return V("eof_not_disconnected", f"in_fail:{stim[2]}", "a closed transport leaves the connection disconnected")
+            if a["ndisc"] - b["ndisc"] != 1:
+                return V("disconnect_not_reported_once", f"in_fail:{stim[2]}", "reports the disconnect exactly once")
+            if delivered and stim[2] != "low":
+                return V("integrity_defect_delivered", f"in_fail:{stim[2]}", "never handed to the application")
         return None
     if kind in ("eof", "tick", "reset", "oserr"):
         if kind != "tick":
